@@ -43,6 +43,23 @@ def run_b2(ctx: core.Ctx, make_jobs, mons, hidden=("clock",), log_visible=False,
     ctx.cov["traces_validated_against_impl"] = ctx.cov.get("traces_validated_against_impl", 0) + sum(1 for r in results if r.get("accept", "").startswith("ACCEPT"))
     ctx.cov["traces_rejected_by_acceptor"] = ctx.cov.get("traces_rejected_by_acceptor", 0) + len(rejected)
     ctx.cov["b2_schedules"] = ctx.cov.get("b2_schedules", 0) + len(results)
+    if rejected and not ctx.violations and [m for m in mons if m in ("C01", "C06", "C07", "C08", "C09", "C12", "C13", "C14", "C15", "C16", "C17", "C20")]:
+        # extended search (DESIGN §4): the implementation did something the model cannot do in these scenarios — re-run them under many
+        # neighbouring schedules and preemption budgets with the property's monitors, looking for a concrete failing input
+        import random as _random
+        rr = _random.Random(ctx.seed * 7919 + len(rejected))
+        extra = []
+        for rj in rejected[:3]:
+            for _ in range(120):
+                extra.append((rj["spec"], rr.randrange(10 ** 9), rr.choice([0, 3, 6, 10])))
+        xs = b2.explore(extra, mons)
+        b2.close_pool()
+        ctx.count("extended_search_schedules", len(xs))
+        for (spec, seed, pre), r in zip(extra, xs):
+            for v in r["violations"]:
+                ctx.violation(f"[{v['monitor']}/{v['kind']}] (extended search after a rejected trace) schedule seed={seed} preempt={pre}: {v['what']}",
+                              {"path": "b2", "spec": spec, "seed": seed, "preempt": pre, "choices": r.get("choice_list"), "monitor": v["monitor"], "kind": v["kind"]},
+                              {"kind": v["kind"], "monitor": v["monitor"]})
     if rejected and not ctx.violations:
         ctx.correspondence_broken(f"L4 model trace inclusion ({label})", {"count": len(rejected), "first": rejected[0]})
     ctx.assumptions += ["DetSched shims implement the documented semantics of threading.Lock/Event/Thread.join, queue.Queue, time.sleep; single attribute reads/writes are atomic (GIL)",
